@@ -316,7 +316,7 @@ def run(ctx):
         en_ps = paths_of(f)
         got = {}
         for p in en_ps:
-            conds = tuple((e[1].replace("^", ""), e[2]) for e in p.ev if e[0] == "branch")
+            conds = tuple(pathx.bool_conds(p))
             sets = [e[2] for e in p.ev if e[0] == "assign" and e[1].replace("^", "").endswith("self.on_busy_update")]
             got[conds] = sets
         ok1 = any(any("Option::is_some(self.signal)" in c[0] and c[1] for c in k) and v == ["Signal"] for k, v in got.items())
